@@ -1,4 +1,4 @@
-import CssVerif.Model.NumColor
+import CssVerif.Model.NumPV
 open CssVerif.Proto CssVerif.Num
 
 def showErr : Err → String
@@ -21,6 +21,7 @@ def numType? : String → Option NumType
 def itemType? : String → Option ItemType
   | "IDENT" => some .ident | "STRING" => some .string | "URI" => some .uri | "HASH" => some .hash
   | "UNICODE-RANGE" => some .unicodeRange | "CHAR" => some .char | "FUNCTION" => some .function
+  | "S" => some .s | "OTHER" => some .other
   | _ => none
 
 def showOpt : Option Cps → String
@@ -73,6 +74,72 @@ def calcToks? : List String → Option (List CalcTok)
     | some a, some l => some (a :: l)
     | _, _ => none
 
+/-- a leaf component `K:hex` of a `pv` request -/
+def pvLeaf? (k h : String) : Option Comp :=
+  match decCps h with
+  | none => none
+  | some v =>
+    match numType? k with
+    | some t => some (.num t v)
+    | none =>
+      if k == "I" then some (.simple .ident v) else if k == "T" then some (.simple .string v)
+      else if k == "R" then some (.simple .unicodeRange v) else if k == "U" then some (.uri v)
+      else if k == "H" then some (.color .hash v) else if k == "K" then some (.color .ident v)
+      else if k == "M" then some (.comment v) else none
+
+mutual
+/-- one component from the words of a `pv` request (fuel = number of words) -/
+def pvComp? : Nat → List String → Option (Comp × List String)
+  | 0, _ => none
+  | _, [] => none
+  | n + 1, w :: rest =>
+    if w == "calc{" then
+      match calcToks? (rest.takeWhile (· != "}")), rest.dropWhile (· != "}") with
+      | some ts, _ :: after => some (.calc ts, after)
+      | _, _ => none
+    else match w.splitOn ":" with
+      | ["F", h] =>
+        match decCps h, pvArgs? n rest with
+        | some name, some (args, after) => some (.func name args, after)
+        | _, _ => none
+      | [k, h] => (pvLeaf? k h).map (·, rest)
+      | _ => none
+def pvArgs? : Nat → List String → Option (Args × List String)
+  | 0, _ => none
+  | _, [] => none
+  | n + 1, w :: rest =>
+    if w == ")" then some (.nil, rest)
+    else if w == "C" then (pvArgs? n rest).map fun (a, r) => (.comma a, r)
+    else match pvComp? n (w :: rest) with
+      | some (c, r) => (pvArgs? n r).map fun (a, r') => (.comp c a, r')
+      | none => none
+end
+
+def pvItems? : Nat → List String → Option (List PVItem)
+  | 0, _ => none
+  | _, [] => some []
+  | n + 1, w :: rest =>
+    match w.splitOn ":" with
+    | ["O", h] =>
+      match decCps h, pvItems? n rest with
+      | some v, some l => some (.op v :: l)
+      | _, _ => none
+    | _ =>
+      match pvComp? n (w :: rest) with
+      | some (c, r) => (pvItems? n r).map (PVItem.comp c :: ·)
+      | none => none
+
+/-- the items `TYPE:hex` of an `outseq` request -/
+def outItems? : List String → Option (List (ItemType × Cps))
+  | [] => some []
+  | w :: rest =>
+    match w.splitOn ":" with
+    | [k, h] =>
+      match itemType? k, decCps h, outItems? rest with
+      | some t, some v, some l => some ((t, v) :: l)
+      | _, _, _ => none
+    | _ => none
+
 def handle (line : String) : String :=
   match words line with
   | ["num", olz, mch, sp, lis, ty, tv] =>
@@ -114,6 +181,15 @@ def handle (line : String) : String :=
   | "calc" :: olz :: mch :: sp :: lis :: toks =>
     match prefs? olz mch sp lis, calcToks? toks with
     | some p, some ts => exc (fmtCalc f64Ops p ts)
+    | _, _ => "bad-op"
+  | "pv" :: olz :: mch :: sp :: lis :: ws =>
+    match prefs? olz mch sp lis, pvItems? (ws.length + 1) ws with
+    | some p, some items => exc (fmtPV f64Ops p items)
+    | _, _ => "bad-op"
+  | "outseq" :: olz :: mch :: sp :: lis :: ws =>
+    -- `out = Out(ser); for t, v in items: out.append(v, t); out.value()`
+    match prefs? olz mch sp lis, outItems? ws with
+    | some p, some items => "OK " ++ encCps (outValue (items.foldl (fun o tv => outAppend p o tv.2 false tv.1) []))
     | _, _ => "bad-op"
   | ["tokval", k, tv] =>
     match decCps tv with
